@@ -167,8 +167,12 @@ def _shard_main(mod, tier, seed, shard, outdir, budget, known, nt_counter=None):
                     nt_counter.value += 1
             viol = [v for v in res.get("violations", []) if not key_matches(known, v["key"])]
             kn = [v for v in res.get("violations", []) if key_matches(known, v["key"])]
+            exc = []
+            if isinstance(case, dict):
+                cc = case.get("cfg") or (case.get("enc") or {}).get("cfg") or {}
+                exc = ["excluded_by_construction:" + x for x in (cc.get("__excluded__") or [])]
             record(dict(case=case, ck=ck, nontrivial=bool(res.get("nontrivial")), dkey=res.get("dkey"),
-                        classes=res.get("classes", []), sample=res.get("sample"),
+                        classes=list(res.get("classes", [])) + exc, sample=res.get("sample"),
                         inconclusive=res.get("inconclusive"), violations=viol, known=kn, t=round(now, 2),
                         shrink=state["fail_t"] is not None))
         viol = [v for v in res.get("violations", []) if not key_matches(known, v["key"])]
